@@ -91,6 +91,7 @@ def parseOp (ts : List String) : Option Op :=
   | ["rlk", n] => do pure (.removeLeak (← n.toNat?))
   | ["rens", a, b] => do pure (.renameSource (← a.toNat?) (← b.toNat?))
   | ["cd", n] => do pure (.clearDemands (← n.toNat?))
+  | ["idd", n, i, p] => do pure (.insertDemand (← n.toNat?) (← i.toNat?) (← optP p))
   | ["asd", n, p] => do pure (.assignDemand (← n.toNat?) (← p.toNat?))
   | ["ssn", n, nd] => do pure (.setSourceNode (← n.toNat?) (← nd.toNat?))
   | ["ssp", l, p, "O"] => do pure (.setSpeedPattern (← l.toNat?) (← optP p))     -- the Pattern object instead of its name
@@ -220,16 +221,13 @@ def handle (st : Variant × Reg) (line : String) : (Variant × Reg) × String :=
   | ["reset", "round3"] => ((round3, init), "ready")
   | ["reset", "round4"] => ((round4, init), "ready")
   | ["reset", "round5"] => ((round5, init), "ready")
+  | ["reset", "round6"] => ((round6, init), "ready")
   | ["snap"] => (st, snapS st.2)
   | ["inv"] => (st, invS st.2)
   | "check" :: _ =>
     match parseSnap ((line.drop 6).toString) with
     | none => (st, "bad-snapshot")
     | some (s, w) => (st, invS s ++ (if viewsOk s w then " views:ok" else " views:bad"))
-  | ["idd", n, i, p] =>   -- raw: demand_timeseries_list.insert(i, (base, p)) (outside `Op`)
-    match n.toNat?, i.toNat?, optP p with
-    | some n, some i, some p => let (s', o) := insertDemandRaw st.2 n i p; ((st.1, s'), outS o)
-    | _, _, _ => (st, "bad-op")
   | ["sdp", n, i, p] =>   -- raw: demand_timeseries_list[i].pattern_name = p (outside `Op`)
     match n.toNat?, i.toNat?, optP p with
     | some n, some i, some p => let (s', o) := setDemandPatternRaw st.2 n i p; ((st.1, s'), outS o)
